@@ -20,6 +20,7 @@ RULE = ('BlockSpecs rendered as text with: shuffled line order inside each secti
         'added iff the user gave none; the same block without comments parses to identical lists. Non-trivial: a trailing '
         'comment containing the marker word on a line before the marker, or a malformed line, or a comment with "=" . '
         'Distinct: sha1 of the spec.')
+RULE = RULE + (' Input shapes added after the seeded-change rounds (DESIGN.md section 8): ' + "compound comments with several '#', names starting with '_' or ending in 0, a parser object that has read another block before, descriptions with braces while logging is registered.")
 ASSUMPTIONS = [
     'variable names never contain the marker word (quantifier)',
     'right-hand sides are compared after removing blanks; the (t-1)->(k-1) normalisation is applied to the expectation',
